@@ -715,8 +715,7 @@ Proof.
 Qed.
 
 (* ------------------------------------------------------------------ *)
-(* receiver discipline: every receiver except undefined (and null in substr) is
-   converted as ES5 9.10 + 9.8 say *)
+(* receiver discipline: every receiver except undefined is converted as ES5 9.10 + 9.8 say *)
 
 Lemma digits_ascii : forall fuel n acc, 0 <= n -> ascii acc -> ascii (digits fuel n acc).
 Proof.
@@ -734,14 +733,13 @@ Proof.
   - apply digits_ascii; [lia|constructor].
 Qed.
 
-Theorem generic_receiver : forall m r, r <> RUndef -> (m = MSubstr -> r <> RNull) ->
+Theorem generic_receiver : forall m r, r <> RUndef ->
   this_gostring m r = option_map dec16 (this_string r).
 Proof.
-  intros m r NU NN. destruct r; cbn [this_gostring this_string option_map]; try reflexivity.
+  intros m r NU. destruct r; cbn [this_gostring this_string option_map]; try reflexivity.
   - now rewrite (dec16_bmp _ (bmp_of_ascii _ (int_text_ascii n))).
   - destruct b; reflexivity.
   - congruence.
-  - destruct m; try reflexivity. exfalso. now apply NN.
 Qed.
 
 (* ------------------------------------------------------------------ *)
@@ -899,8 +897,7 @@ Theorem charAt_call_refines : forall m r args u,
 Proof.
   intros m r args u Hm NU TS B NF L.
   assert (G : this_gostring m r = Some (dec16 u)).
-  { rewrite generic_receiver; [now rewrite TS | exact NU |].
-    intros E. destruct Hm; congruence. }
+  { rewrite generic_receiver; [now rewrite TS | exact NU]. }
   destruct Hm as [-> | ->]; unfold call_model, call_spec; rewrite G, TS.
   - apply (charAt_refines_bmp u (arg_at args 0) false B NF L).
   - apply (charAt_refines_bmp u (arg_at args 0) true B NF L).
